@@ -158,6 +158,10 @@ struct Cfg {
     macro_map: HashMap<String, String>,
     eff_path: HashMap<String, String>,
     eff_method: HashMap<String, String>,
+    /// method effects derived from units (not listed in contracts/config.json): applied only at
+    /// calls whose argument count matches a method of that name defined in the covered files
+    eff_method_derived: HashSet<String>,
+    method_argc: HashMap<String, HashSet<usize>>,
     iter_renames: HashMap<String, String>,
     asref_map: HashMap<String, String>, // "Path" -> "&Path"
     opaque_fmt_in: HashSet<String>,     // method names whose closure args get opaque format!
@@ -859,6 +863,9 @@ impl<'a, 'b, 'ast> Visit<'ast> for BodyV<'a, 'b> {
                 None => (m.clone(), String::new()),
             };
             let mut apply = mode != "none";
+            if self.fc.cfg.eff_method_derived.contains(&key) && !self.fc.cfg.method_argc.get(&name).map(|a| a.contains(&e.args.len())).unwrap_or(false) {
+                apply = false;
+            }
             if qual == "nonlit" {
                 if let Some(Expr::Lit(_)) = e.args.first() {
                     apply = false;
@@ -1540,6 +1547,17 @@ fn process_fn(
             bv.fc.degraded.push(format!("unit {}: contract names closure `{k}` but the function has none (annotation dropped)", u.id));
         }
     }
+    if !u.drop_body && bv.loop_no > bv.used_loops.len() {
+        // a loop the contracts give no invariant / decreases for (auto helper, or a loop a later
+        // change introduced): verified with the trivial invariant, termination not checked
+        let start = if let Some(a) = attrs.first() { range_of(a).0 } else { range_of(sig).0 };
+        let vs = range_of(_vis);
+        let st = if vs.1 > vs.0 { vs.0.min(start) } else { start };
+        bv.fc.edit_ord(st, st, "#[verifier::exec_allows_no_decreases_clause]\n".to_string(), "W.no_decreases", -21);
+        if !u.id.starts_with("auto:") {
+            bv.fc.degraded.push(format!("unit {}: {} loop(s) without a contract (no invariant; termination not checked)", u.id, bv.loop_no - bv.used_loops.len()));
+        }
+    }
     for h in &u.hints {
         let anchor = jstr(h, "anchor");
         if !u.drop_body && !bv.fc.rule_counts.contains_key(&format!("hint:{}", anchor)) {
@@ -1638,7 +1656,10 @@ impl<'c, 'ast> Visit<'ast> for EffScan<'c> {
     fn visit_expr_method_call(&mut self, e: &'ast ExprMethodCall) {
         if let Some(m) = self.cfg.eff_method.get(&format!(".{}", e.method)) {
             let lit_skip = m.ends_with("/nonlit") && matches!(e.args.first(), Some(Expr::Lit(_)));
-            if !lit_skip {
+            let key = format!(".{}", e.method);
+            let argc_skip = (self.cfg.eff_method_derived.contains(&key) && !self.cfg.method_argc.get(&e.method.to_string()).map(|a| a.contains(&e.args.len())).unwrap_or(false))
+                || m.split_once("/argc").map(|(_, n)| n.parse::<usize>().map(|n| n != e.args.len()).unwrap_or(false)).unwrap_or(false);
+            if !lit_skip && !argc_skip {
                 let m = m.clone();
                 self.bump(&m);
             }
@@ -1723,8 +1744,29 @@ fn main() {
             .map(|m| m.iter().map(|(a, b)| (a.clone(), b.as_str().unwrap_or("").to_string())).collect())
             .unwrap_or_default()
     };
+    let src_root = cfgv["src"].as_str().unwrap().to_string();
+    let mut method_argc: HashMap<String, HashSet<usize>> = HashMap::new();
+    for (fname, _) in cfgv["files"].as_object().unwrap() {
+        if let Ok(src) = std::fs::read_to_string(format!("{}/{}", src_root, fname)) {
+            if let Ok(file) = syn::parse_file(&src) {
+                for item in &file.items {
+                    if let Item::Impl(im) = item {
+                        for ii in &im.items {
+                            if let ImplItem::Fn(m) = ii {
+                                if matches!(m.sig.inputs.first(), Some(FnArg::Receiver(_))) {
+                                    method_argc.entry(m.sig.ident.to_string()).or_default().insert(m.sig.inputs.len() - 1);
+                                }
+                            }
+                        }
+                    }
+                }
+            }
+        }
+    }
     let cfg = Cfg {
         env,
+        eff_method_derived: cfgv.get("effects_method_derived").and_then(|x| x.as_array()).map(|a| a.iter().map(|x| x.as_str().unwrap().to_string()).collect()).unwrap_or_default(),
+        method_argc,
         roots: cfgv["roots"].as_array().unwrap().iter().map(|x| x.as_str().unwrap().to_string()).collect(),
         macro_map: getmap("macro_map"),
         eff_path: getmap("effects_path"),
@@ -1734,7 +1776,6 @@ fn main() {
         opaque_fmt_in: cfgv["opaque_fmt_in"].as_array().map(|a| a.iter().map(|x| x.as_str().unwrap().to_string()).collect()).unwrap_or_default(),
         world_ty: cfgv.get("world_ty").and_then(|x| x.as_str()).unwrap_or("crate::shims::World").to_string(),
     };
-    let src_root = cfgv["src"].as_str().unwrap().to_string();
     let mut out_files = Map::new();
     let mut all_errors: Vec<String> = vec![];
     let mut total_rules: BTreeMap<String, usize> = BTreeMap::new();
